@@ -11,6 +11,24 @@
      2 grp                 the context grp is cancelled
      3 peer                clearAllPeerDials(peer)
      4 jid                 the scripted dialFunc of job jid is released (returns)
+     5 jid grp             (followed by TWO observations) the attempt of job jid has completed
+                           - its dialFunc was released earlier - while nobody receives from its
+                           response channel (unbuffered, not drained), so its executeDial goroutine
+                           is parked in the delivery of the result; now context grp (the job's
+                           own context) is cancelled.  The limiter's state is not touched between
+                           the return of dialFunc and the end of the delivery, and the model's
+                           LReturn is 'dialFunc returns; the result is delivered or dropped;
+                           finishedDial' in one step, so this history is the model history
+                           'cancel grp, then return jid':  the first observation is taken with
+                           the goroutine parked in the delivery, just before the cancellation
+                           (the attempt counts as in progress: it is listed among the
+                           invocations in progress), the second after the cancellation (the
+                           attempt is over: its result was not delivered and every caller of
+                           its context has given up; it is not listed any more).  Decoded as
+                           the two trace entries (SCancel grp, obs1) (SReturn jid, obs2).
+                           The release of the dialFunc itself is not recorded (nothing of it is
+                           visible at the limiter's interface until the result is delivered or
+                           dropped); other stimuli may lie between it and this one.
    observation (taken after synctest.Wait, i.e. when every goroutine is parked):
      fdConsuming  len(waitingOnFd)  nsp
      na (peer count)*na            activePerPeer, sorted by peer
@@ -97,6 +115,16 @@ Fixpoint decode_ltrace (fuel : nat) (l : list Z) : option (list (lstim * lobs)) 
   | S f =>
       match l with
       | [] => Some []
+      | 5 :: id :: g :: r0 =>
+          match decode_lobs r0 with
+          | Some (oa, r1) =>
+              match decode_lobs r1 with
+              | Some (ob, r2) =>
+                  match decode_ltrace f r2 with
+                  | Some t => Some ((SCancel g, oa) :: (SReturn id, ob) :: t)
+                  | None => None end
+              | None => None end
+          | None => None end
       | _ => match decode_lstim l with
              | Some (x, r) =>
                  match decode_lobs r with
